@@ -1211,7 +1211,6 @@ impl<C: Config, Q: Query> Snapshot<C, Q> {
         mut self,
         mut backward_projection_lock_guard: BackwardProjectionLockGuard<C>,
     ) {
-        let mut tx = self.engine().new_write_transaction();
         let engine = self.engine().clone();
         let query_id = *self.query_id();
 
@@ -1222,6 +1221,10 @@ impl<C: Config, Q: Query> Snapshot<C, Q> {
         self.upgrade_to_exclusive().await;
 
         async move {
+            // the write batch must not be alive across the cancellable awaits
+            // above: an active batch panics when dropped
+            let mut tx = engine.new_write_transaction();
+
             engine
                 .computation_graph
                 .database
